@@ -185,6 +185,22 @@ def check_text(acc: Acc | None, text: str) -> list[dict]:
                 i += 1
             if (mark.line, mark.column) != (line, col):
                 vs.append(mk("C07:error-position-inconsistent", text, {"index": idx, "line": line, "column": col}, repr(mark)))
+        # the documented offsets (the block's place in the enclosing document) shift every reported position by the
+        # same amount, on every line: the error still names the same character
+        try:
+            options_to_items(text, line_offset=3, column_offset=4)
+            vs.append(mk("C07:error-depends-on-offsets", text, "TokenizeError", "returned pairs when offsets were given"))
+        except TokenizeError as exc2:
+            for which in ("problem_mark", "context_mark"):
+                m0, m2 = getattr(err, which, None), getattr(exc2, which, None)
+                if (m0 is None) != (m2 is None):
+                    vs.append(mk("C07:error-offset-not-applied", text, f"{which} present in both", [repr(m0), repr(m2)]))
+                elif m0 is not None and all(isinstance(getattr(m0, a, None), int) for a in ("line", "column")):
+                    if (m2.line, m2.column) != (m0.line + 3, m0.column + 4):
+                        vs.append(mk("C07:error-offset-not-applied", text,
+                                     {which: [m0.line + 3, m0.column + 4]}, [m2.line, m2.column]))
+        except Exception as exc2:  # noqa: BLE001
+            vs.append(mk(f"C07:exc-with-offsets:{type(exc2).__name__}", text, "TokenizeError", repr(exc2)))
         if not isinstance(err.problem, str) or not str(err):
             vs.append(mk("C07:error-without-message", text, "message", repr(err.problem)))
     if kind == "inside":
